@@ -618,3 +618,134 @@ def lazy_purge_history(rng):
     g.hist.append((wg.PROBE, []))
     g.hist.append((DROPW, []))
     return g.hist
+
+
+def mid_history(rng, sids=None):
+    """indices on both sides of the second layer boundary of the hierarchical bit set (64^2 = 4096), reached with
+    genuinely live entities: inserts, removals (every path), deletions (immediate, deferred, batch), reuse of the
+    freed indices, with every storage observed after each step"""
+    g = Gen(rng)
+    pool = sids if sids is not None else rng.sample(range(16), rng.randint(1, 3))
+    for sid in pool:
+        g.register(sid)
+    n = 4096 + rng.randint(3, 120)
+    g.hist.append((wg.CI, [n]))
+    g.created(n)
+    picks = list(dict.fromkeys([0, 63, 64, 4094, 4095, 4096, 4097, n - 1] + [rng.randrange(4000, n) for _ in range(5)] +
+                               [rng.randrange(n) for _ in range(3)]))
+    rng.shuffle(picks)
+    for h in picks:
+        for sid in pool:
+            if rng.random() < 0.8:
+                u, v = g.tok(sid)
+                g.hist.append((INS, [sid, h, u, v]))
+    for sid in pool:
+        g.hist.append((MSK, [sid]))
+    for h in rng.sample(picks, min(len(picks), 6)):
+        sid = rng.choice(pool)
+        k = rng.random()
+        if k < 0.3:
+            g.hist.append((REM, [sid, h]))
+        elif k < 0.45:
+            g.hist.append((ENT, [sid, h, 3, 0, 0]))
+        elif k < 0.6:
+            g.hist.append((wg.D, [h]))
+            g.kill(h)
+        elif k < 0.75:
+            g.hist.append((wg.ED, [h]))
+            g.kill(h)
+            g.hist.append((wg.M, []))
+        elif k < 0.9:
+            batch = [x for x in rng.sample(picks, min(len(picks), 3)) if x in g.live]
+            if batch:
+                g.hist.append((wg.DM, batch))
+                for x in batch:
+                    g.kill(x)
+        else:
+            g.hist.append((DRN, [sid, rng.randint(0, 3)]))
+        for s2 in pool:
+            g.hist.append((rng.choice([MSK, CNT]), [s2]))
+        for x in rng.sample(picks, 3):
+            g.hist.append((GET, [rng.choice(pool), x]))
+    # reuse of the freed indices
+    for _ in range(rng.randint(1, 4)):
+        g.hist.append((rng.choice([wg.C, wg.EC]), []))
+        g.created(1)
+        for s2 in pool:
+            g.hist.append((GET, [s2, g.nh - 1]))
+    for s2 in pool:
+        g.hist.append((MSK, [s2]))
+    g.hist.append((DROPW, []))
+    return g.hist
+
+
+def atomic_frame_history(rng):
+    """entities created through the shared Entities resource (on fresh and on recycled indices), given components
+    directly, observed through every read path, deleted again (deferred, immediate, in failing batches) before and
+    after the maintain that merges them"""
+    g = Gen(rng)
+    pool = rng.sample(range(16), rng.randint(1, 3))
+    for sid in pool:
+        g.register(sid)
+    for _ in range(rng.randint(1, 4)):
+        g.hist.append((wg.C, g.comps(3)))
+        g.created(1)
+    for _ in range(rng.randint(1, 3)):
+        # free an index (merged), then create atomically on it
+        if g.live and rng.random() < 0.8:
+            h = rng.choice(g.live)
+            g.hist.append((rng.choice([wg.D, wg.ED]), [h]))
+            g.kill(h)
+            g.hist.append((wg.M, []))
+        new = []
+        for _ in range(rng.randint(1, 3)):
+            g.hist.append((rng.choice([wg.EC, wg.EB]), [] if g.hist and False else []))
+            if g.hist[-1][0] == wg.EB:
+                g.hist[-1] = (wg.EB, [1] + g.comps(2))
+            new.append(g.nh)
+            g.created(1)
+        for h in new:
+            for sid in pool:
+                if rng.random() < 0.7:
+                    u, v = g.tok(sid)
+                    g.hist.append((INS, [sid, h, u, v]))
+        for h in new:
+            for sid in pool:
+                g.hist.append((rng.choice([GET, CONT, GMD]), [sid, h]))
+                g.hist.append((GET, [sid, h]))
+        for sid in pool:
+            g.hist.append((MSK, [sid]))
+        # delete some of them in the same frame
+        for h in new:
+            k = rng.random()
+            if k < 0.3:
+                g.hist.append((wg.ED, [h]))
+                g.kill(h)
+            elif k < 0.4:
+                g.hist.append((wg.D, [h]))
+                g.kill(h)
+            elif k < 0.5 and g.dead:
+                g.hist.append((wg.DM, [h, rng.choice(g.dead)]))      # fails on the second element
+                g.kill(h)
+        if rng.random() < 0.3 and g.dead:
+            # a pending deferred delete inside the killed prefix of a failing batch, then reuse
+            live = [x for x in g.live]
+            if live:
+                a = rng.choice(live)
+                g.hist.append((wg.ED, [a]))
+                g.hist.append((wg.DM, [a, rng.choice(g.dead)]))
+                g.kill(a)
+                g.hist.append((wg.C, g.comps(3)))
+                g.created(1)
+        g.hist.append((wg.M, []))
+        for sid in pool:
+            g.hist.append((MSK, [sid]))
+            g.hist.append((CNT, [sid]))
+        for _ in range(rng.randint(1, 2)):
+            g.hist.append((wg.C, []))
+            g.created(1)
+            for sid in pool:
+                g.hist.append((GET, [sid, g.nh - 1]))
+    g.hist.append((wg.PROBE, []))
+    g.hist.append((DROPW, []))
+    return g.hist
